@@ -250,6 +250,7 @@ class Names(Sub):
     ambient = True
     name = "localized_names_roundtrip"
     kind = "enum"
+    case_timeout = 900.0
     backends = ("py",)
     n = {"quick": 0, "thorough": 0}
     shards = {"quick": 9, "thorough": 9}
@@ -285,6 +286,15 @@ class Names(Sub):
                     req(T.fields(r2) == want, f"from_format under set_locale({loc!r}) does not round-trip", fmt=fmt, string=s2, got=r2.isoformat())
                 finally:
                     pendulum.set_locale("en")
+        # the localized ordinal token for EVERY day of the month (each plural/ordinal class of the locale, and locales that have no ordinal table)
+        for day in range(1, calendar.monthrange(2021, m)[1] + 1):
+            dt = pendulum.datetime(2021, m, day, 14, 5, 6)
+            for fmt in ("Do MMMM YYYY HH:mm:ss", "dddd Do MMM YYYY"):
+                s = dt.format(fmt, locale=loc)
+                r = pendulum.from_format(s, fmt, locale=loc)
+                want = T.fields(dt) if "HH" in fmt else T.fields(dt)[:3] + (0, 0, 0, 0)
+                req(T.fields(r) == want, f"the ordinal token Do does not round-trip in locale {loc}", fmt=fmt, string=s, got=r.isoformat(), expected=dt.isoformat())
+                n += 1
         ctx.cache["n"] = ctx.cache.get("n", 0) + n
         ctx.cache["evidence_extra"] = {"inner_evaluations": ctx.cache["n"], "inner_nontrivial": ctx.cache["n"]}
         return False, loc
